@@ -61,6 +61,9 @@ pub fn osc(name: &str) -> u16 {
 
 #[derive(Clone, Debug, PartialEq, Eq)]
 pub enum OutKind {
+    /// OS auto-repeat forwarded by kanata (written while handling a Repeat input event; the
+    /// recorder prints it like a press, but it does not change what the OS holds down)
+    Repeat,
     Down,
     Up,
     BtnDown,
@@ -91,6 +94,7 @@ pub struct Out {
 impl Out {
     pub fn short(&self) -> String {
         let p = match self.kind {
+            OutKind::Repeat => "⟳",
             OutKind::Down => "↓",
             OutKind::Up => "↑",
             OutKind::BtnDown => "🖰↓",
@@ -144,6 +148,8 @@ pub struct OsModel {
     pub codes_down: BTreeSet<String>,
     pub redundant_releases: u64,
     pub represses: u64,
+    pub repeats: u64,
+    pub repeats_of_up_keys: u64,
     pub outputs: u64,
 }
 
@@ -212,10 +218,22 @@ impl Sim {
         }
         let evs = std::mem::take(&mut self.k.kbd_out.outputs.events);
         for s in evs {
-            let Some((kind, name)) = parse_out(&s) else { continue };
+            let Some((mut kind, name)) = parse_out(&s) else { continue };
             let mut redundant = false;
             let mut repress = false;
+            if !in_tick && kind == OutKind::Down {
+                // the only key output produced outside a tick is the forwarded auto-repeat
+                kind = OutKind::Repeat;
+            }
             match kind {
+                OutKind::Repeat => {
+                    self.os.repeats += 1;
+                    if !self.os.keys_down.contains(&name) {
+                        // repeat of a key the OS does not hold
+                        repress = true;
+                        self.os.repeats_of_up_keys += 1;
+                    }
+                }
                 OutKind::Down => {
                     if !self.os.keys_down.insert(name.clone()) {
                         repress = true;
